@@ -111,6 +111,40 @@ def compare_table(rows, recs):
             if not near(r["speed"], g, 0.51): diffs.append("%s speed %s vs %.2f" % (k, r["speed"], g))
     return diffs
 
+def start_many_messages(rng, tier, report):
+    """one aircraft heard more than ten thousand times (a few hours of one nearby aircraft): the count on screen must be the tracker's count,
+    whatever its number of digits (seed C18_g: a column narrower than the number drops its last digits). radar waits 10 ms for operator input
+    after every line, so 10 050 lines take about two minutes: the scenario runs in its own thread beside the other scenarios."""
+    import threading
+    n = 10050
+    def run():
+        name = "table/many-messages"
+        one = fline(gentrack.Flight(Rng(41), 0x4840d6, RX, plain=True).frame(gentrack.me_ident(4, 0, "KLM1023")))
+        two = fline(gentrack.Flight(Rng(43), 0x406b90, RX, plain=True).frame(gentrack.me_ident(4, 0, "BAW12")))
+        f = Feed(); f.run([("accept",), ("send", one * n + two), ("sleep", 900)])
+        r = Radar(f.port)
+        try:
+            r.pump(0.8); r.send(KEYS["F3"])
+            deadline = time.time() + 420
+            rows = None
+            while time.time() < deadline:
+                r.pump(2.0)
+                rows = table_rows(r.screen.text())
+                if rows and len(rows) == 2: break              # the second aircraft shows up once every line before it has been processed
+                if r.poll() is not None: break
+            r.pump(0.6)
+            rows = table_rows(r.screen.text())
+            got = {x["icao"]: x["msgs"] for x in (rows or [])}
+            want = {"4840d6": str(n), "406b90": "1"}
+            alive = r.poll() is None
+            report(name, alive and got == want, {"message_counts_on_screen": got, "tracker": want, "alive": alive})
+        except Exception as e:
+            report(name, False, {"exception": repr(e)})
+        finally:
+            r.send(b"q"); r.wait_exit(3.0); r.kill(); f.stop()
+    t = threading.Thread(target=run, daemon=True); t.start()
+    return t
+
 def stats_values(text):
     most = total = None
     for l in text.split("\n"):
